@@ -16,6 +16,8 @@ type Node struct {
 	Content  []byte
 	Children []*Node
 	cons     bool
+	// bitPrefix: an expanded BIT STRING; its body is 0x00 followed by the children
+	bitPrefix bool
 }
 
 func (n *Node) Tag() byte         { return n.Id[0] }
@@ -123,6 +125,9 @@ func (n *Node) Body() []byte {
 		return n.Content
 	}
 	var buf bytes.Buffer
+	if n.bitPrefix {
+		buf.WriteByte(0)
+	}
 	for _, c := range n.Children {
 		buf.Write(c.Bytes())
 	}
@@ -140,7 +145,7 @@ func (n *Node) Bytes() []byte {
 
 // Clone deep-copies a node.
 func (n *Node) Clone() *Node {
-	c := &Node{Id: append([]byte(nil), n.Id...), cons: n.cons}
+	c := &Node{Id: append([]byte(nil), n.Id...), cons: n.cons, bitPrefix: n.bitPrefix}
 	if n.Children != nil {
 		c.Children = make([]*Node, len(n.Children))
 		for i, k := range n.Children {
